@@ -24,7 +24,8 @@ ESSENTIAL = ["zone:offset", "zone:abbr", "pos:end", "pos:paren", "pos:before-par
 
 MONTHS = ["January", "February", "March", "April", "May", "June", "July", "August", "September", "October",
           "November", "December"]
-BODIES = ["iso", "dmy_hm", "mdy_12h", "iso_T"]
+BODIES = ["iso", "dmy_hm", "mdy_12h", "iso_T", "mdy_12h_hour", "rfc_12h_hour"]
+WD = ["Mon", "Tue", "Wed", "Thu", "Fri", "Sat", "Sun"]
 
 
 def body(shape, t):
@@ -36,6 +37,10 @@ def body(shape, t):
     if shape == "dmy_hm":
         return "%d %s %04d %02d:%02d" % (d, MONTHS[m - 1], y, H, M), [y, m, d, H, M, 0]
     h12 = H % 12 or 12
+    if shape == "mdy_12h_hour":  # a clock time written without minutes ('10 PM'): no HH:MM anywhere in the body
+        return "%s %d, %04d %d %s" % (MONTHS[m - 1], d, y, h12, "AM" if H < 12 else "PM"), [y, m, d, H, 0, 0]
+    if shape == "rfc_12h_hour":
+        return "%s, %02d %s %04d %d %s" % (WD[dt.date(y, m, d).weekday()], d, MONTHS[m - 1][:3], y, h12, "am" if H < 12 else "pm"), [y, m, d, H, 0, 0]
     return "%s %d, %04d %d:%02d %s" % (MONTHS[m - 1], d, y, h12, M, "AM" if H < 12 else "PM"), [y, m, d, H, M, 0]
 
 
